@@ -105,6 +105,13 @@ impl C10 {
         rep: &mut CaseReport,
     ) -> Result<(Vec<usize>, StepResult), Failure> {
         let mut session = Session::new(c.u.clone(), rt, None);
+        if self.exhaustive {
+            // every interleaving is enumerated: keep the choice tree at one completion per request
+            session.provider().two_step.set(false);
+        }
+        if session.provider().two_step.get() && !rep.labels.contains(&"two-step-requests") {
+            rep.labels.push("two-step-requests");
+        }
         // half of the re-entrant cases: the sort abandons nested requests it would have to wait for
         let abandon = self.reentrant_sort && hash_of(&(&c.problem, c.u.packages.len())) & 1 == 1;
         if self.reentrant_sort {
